@@ -175,3 +175,24 @@ INDEX_TABLE = [
     (r"^eval::weird_string_as_bytes_index$", 'slice-range', 1, 'callers pass an index normalised against the same byte slice (pythonic_index / safe_index_inner): i < len'),
     (r"^linear_index_isize$", 'slice-range', 1, 'bs[i..i + 1] with i = pythonic_index_isize(bs, ..): i < len'),
 ]
+
+
+# R14.10: std APIs with an index / range / radix / size precondition (panic when violated) that are not auto-discharged
+# (full range, constant radix <= 36, constant non-zero chunk size, insert at 0, constant clamp bounds): fn-key regex, api, count, reason
+STDPRE_TABLE = [
+    (r"^<Extremum as core::Builtin>::run$", 'Vec::remove', 1, 'removes the function argument at the position just found by the scan over the same vector'),
+    (r"^<streams::Permutations as std::iter::Iterator>::next$", 'slice::swap', 1, 'inc and linc are positions found by scans over v (next permutation algorithm)'),
+    (r"^core::Obj::try_remove_index$", 'Vec::remove', 1, 'ii = pythonic_index(xs, ..) on the same vector'),
+    (r"^core::Obj::try_remove_slice$", 'Vec::drain', 1, '(lo, hi) = pythonic_slice_obj on the same vector: lo <= hi <= len'),
+    (r"^core::Parser::expression$", 'Vec::remove', 1, 'ags.remove(0) under `ags.len() == 1`'),
+    (r"^core::Stream::pythonic_index_isize$", 'Vec::swap_remove', 1, 'under `i2 < v.len()`'),
+    (r"^core::Stream::pythonic_slice$", 'Vec::drain', 1, '(lo, hi) = pythonic_slice on the forced vector'),
+    (r"^eval::assign_all$", 'Vec::drain', 2, 'after the `rhs.len() + 1 < lhs.len()` error exit: len + si + 1 - lhs.len() <= len and si <= remaining length'),
+    (r"^eval::evaluate$", 'Vec::split_off', 1, '__internal_call stack primitive: internal (README: "you are on your own")'),
+    (r"^few::few[23]?$", 'Vec::remove', 4, 'remove(0) in the arm that matched xs.len() = 1, 2 or 3'),
+    (r"^builtin\(str_radix\)$", 'char::from_digit', 1, 'base checked in 2..=36 first (C16 R16.1); the digit is a remainder modulo base'),
+    (r"^builtin\(int_radix\)$", 'char::to_digit', 2, 'base checked in 2..=36 first (C16 R16.1)'),
+    (r"^lex::Lexer::<'a>::lex_base_and_emit(::\{closure#0\})?$", 'char::to_digit', 1, 'base is 2, 8 or 16 (literal prefixes) or the NrD radix already range-checked (C15 R15.4)'),
+    (r"^uncons$", 'Vec::remove', 3, 'remove(0) after the is_empty test of the same payload'),
+    (r"^uncons$", 'String::remove', 1, 'remove(0) after the is_empty test: position 0 is a char boundary of a non-empty string'),
+]
